@@ -463,21 +463,28 @@ func cmdCheck(prop, tier string) int {
 		p := filepath.Join(verifDir, "out", "cases", fmt.Sprintf("%s-sample-%d.json", prop, i))
 		b, _ := json.Marshal(cf)
 		os.WriteFile(p, b, 0o644)
-		o := runNative(np, p, 60*time.Second)
-		agree := o.Done && o.Assert == "" && o.Panic == "" && len(o.Exhaust) == 0
+		var o *nativeOut
+		agree := false
 		why := ""
-		if !agree {
-			why = fmt.Sprintf("native run did not complete like the symbolic path (done=%v assert=%q panic=%q assume=%v exhausted=%v hang=%v)", o.Done, o.Assert, o.Panic, o.Assume, o.Exhaust, o.Hang)
-		} else if s.Weak {
-			// the path depends on an uninterpreted function (crc32): the concrete run may legitimately take
-			// another branch; only its outcome (no assertion failure, no panic) is comparable
-		} else if len(o.Obs) != len(s.ObsSeq) {
-			agree, why = false, fmt.Sprintf("observation count differs: native %d engine %d", len(o.Obs), len(s.ObsSeq))
-		} else {
-			for k := range o.Obs {
-				if o.Obs[k].Name != s.ObsSeq[k].Name || fmt.Sprint(o.Obs[k].Vals) != fmt.Sprint(s.ObsSeq[k].Vals) {
-					agree, why = false, fmt.Sprintf("observation %s differs: native %v engine %v", o.Obs[k].Name, o.Obs[k].Vals, s.ObsSeq[k].Vals)
-					break
+		// Go's select and goroutine scheduling are nondeterministic: a symbolic path is validated when
+		// some native run (of up to 5) follows it
+		for attempt := 0; attempt < 5 && !agree; attempt++ {
+			o = runNative(np, p, 60*time.Second)
+			agree = o.Done && o.Assert == "" && o.Panic == "" && len(o.Exhaust) == 0
+			why = ""
+			if !agree {
+				why = fmt.Sprintf("native run did not complete like the symbolic path (done=%v assert=%q panic=%q assume=%v exhausted=%v hang=%v)", o.Done, o.Assert, o.Panic, o.Assume, o.Exhaust, o.Hang)
+			} else if s.Weak {
+				// the path depends on an uninterpreted function (crc32): the concrete run may legitimately take
+				// another branch; only its outcome (no assertion failure, no panic) is comparable
+			} else if len(o.Obs) != len(s.ObsSeq) {
+				agree, why = false, fmt.Sprintf("observation count differs: native %d engine %d", len(o.Obs), len(s.ObsSeq))
+			} else {
+				for k := range o.Obs {
+					if o.Obs[k].Name != s.ObsSeq[k].Name || fmt.Sprint(o.Obs[k].Vals) != fmt.Sprint(s.ObsSeq[k].Vals) {
+						agree, why = false, fmt.Sprintf("observation %s differs: native %v engine %v", o.Obs[k].Name, o.Obs[k].Vals, s.ObsSeq[k].Vals)
+						break
+					}
 				}
 			}
 		}
@@ -513,7 +520,7 @@ func cmdCheck(prop, tier string) int {
 		var kf *KnownFinding
 		for k := range known {
 			e := &known[k]
-			if e.Property != prop || e.Status != "known" {
+			if !e.appliesTo(prop) || e.Status != "known" {
 				continue
 			}
 			inClass := false
@@ -558,16 +565,21 @@ func cmdCheck(prop, tier string) int {
 				if f.Kind == "unwind" || f.Kind == "deadlock" {
 					to = 20 * time.Second
 				}
-				o := runNative(np, rp, to)
-				switch f.Kind {
-				case "assert":
-					reproduced = o.Assert == f.ID
-				case "panic":
-					reproduced = o.Panic != ""
-				case "unwind", "deadlock":
-					reproduced = o.Hang
+				for attempt := 0; attempt < 8 && !reproduced; attempt++ {
+					o := runNative(np, rp, to)
+					switch f.Kind {
+					case "assert":
+						reproduced = o.Assert == f.ID
+					case "panic":
+						reproduced = o.Panic != ""
+					case "unwind", "deadlock":
+						reproduced = o.Hang
+					}
+					detail = fmt.Sprintf("native (attempt %d): done=%v assert=%q panic=%q hang=%v assume=%v", attempt+1, o.Done, o.Assert, o.Panic, o.Hang, o.Assume)
+					if f.Kind == "unwind" || f.Kind == "deadlock" {
+						break
+					}
 				}
-				detail = fmt.Sprintf("native: done=%v assert=%q panic=%q hang=%v assume=%v", o.Done, o.Assert, o.Panic, o.Hang, o.Assume)
 			}
 		}
 		if kf != nil {
@@ -594,7 +606,7 @@ func cmdCheck(prop, tier string) int {
 	}
 	// known findings that no longer show up
 	for _, e := range known {
-		if e.Property == prop && e.Status == "known" && !knownPrinted[e.ID] {
+		if e.appliesTo(prop) && e.Status == "known" && !knownPrinted[e.ID] {
 			relevant := false
 			for _, r := range results {
 				_ = r
@@ -737,4 +749,16 @@ func cmdReplay(path string) int {
 	}
 	fmt.Println("not reproduced")
 	return 0
+}
+
+func (e *KnownFinding) appliesTo(prop string) bool {
+	if e.Property == prop {
+		return true
+	}
+	for _, a := range e.Also {
+		if a == prop {
+			return true
+		}
+	}
+	return false
 }
